@@ -39,12 +39,12 @@ ARENA_FAMILIES = {
         fns=["strcpyfld_s", "strcpyfldin_s", "strcpyfldout_s"],
         quick=dict(N=6, K=3, BosMode=0), thorough=dict(N=8, K=4, BosMode=1), props={"C01", "C02", "C03", "C04", "C05", "C06", "C07", "C08"}),
     "query2": dict(
-        fns=["strcmp_s", "strcasecmp_s", "strcoll_s", "strcmpfld_s", "wcscmp_s", "wcsncmp_s", "memcmp_s", "memcmp16_s", "memcmp32_s", "wmemcmp_s",
+        fns=["strcmp_s", "strcasecmp_s", "strcoll_s", "strcmpfld_s", "wcscmp_s", "wcsncmp_s", "wcsicmp_s", "memcmp_s", "memcmp16_s", "memcmp32_s", "wmemcmp_s",
              "strstr_s", "strcasestr_s", "wcsstr_s", "strpbrk_s", "strspn_s", "strcspn_s", "strfirstdiff_s", "strfirstsame_s",
              "strlastdiff_s", "strlastsame_s", "strprefix_s"],
         quick=dict(N=6, K=2, BosMode=0, QA=1), thorough=dict(N=7, K=3, BosMode=0, QA=1), props={"C10"}, flavours=("slack",)),
     "query2_small": dict(
-        fns=["strcmp_s", "strcasecmp_s", "strcoll_s", "strcmpfld_s", "wcscmp_s", "wcsncmp_s", "memcmp_s", "memcmp16_s", "memcmp32_s", "wmemcmp_s",
+        fns=["strcmp_s", "strcasecmp_s", "strcoll_s", "strcmpfld_s", "wcscmp_s", "wcsncmp_s", "wcsicmp_s", "memcmp_s", "memcmp16_s", "memcmp32_s", "wmemcmp_s",
              "strstr_s", "strcasestr_s", "wcsstr_s", "strpbrk_s", "strspn_s", "strcspn_s", "strfirstdiff_s", "strfirstsame_s",
              "strlastdiff_s", "strlastsame_s", "strprefix_s"],
         quick=dict(N=5, K=2, BosMode=0, QA=0), thorough=dict(N=6, K=2, BosMode=1, QA=1), props={"C01", "C02", "C05"}, flavours=("slack",)),
@@ -151,7 +151,7 @@ SAFETY_WHY = {"C01": ("write_fault", "write_outside_dest", "write_in_front_of_de
               "C03": ("unterminated",), "C04": ("dest_not_cleared",), "C05": ("report", "handler_on_success"),
               "C06": ("count_differs_from_standard", "content_differs_from_standard", "spurious_failure", "no_room_accepted", "encoding_error_accepted"),
               "C08": ("stale_slack",)}
-SAFETY_ENGINES = {"C01": ("norm", "mbs", "tok"), "C02": ("norm", "mbs", "tok"), "C03": ("mbs",), "C04": ("mbs",), "C05": ("mbs",), "C06": ("mbs",), "C08": ("mbs",)}
+SAFETY_ENGINES = {"C01": ("norm", "mbs", "tok"), "C02": ("norm", "mbs", "tok"), "C03": ("mbs", "norm"), "C04": ("mbs", "norm"), "C05": ("mbs", "norm"), "C06": ("mbs",), "C08": ("mbs", "norm")}
 
 
 def _is_safety(prop, why):
